@@ -59,6 +59,18 @@ def main():
         text = "\n".join(gen.render_program(pal, p) + corpus.TAIL)
         for o in corpus.option_sets(rng, 3 if thorough else 1, pdeps=0.03):
             plan.append(("random", text, o))
+    # every way to open and close up to three nested loops (as C02): each opener must meet its own closer
+    from harness.c02 import LOOPS
+    nests = gen.gen_programs(rep, wd, "loops", LOOPS, 1, 7 if thorough else 6, maxdepth=3, maxpergroup=9)
+    nests = [p for p in nests if sum(1 for k in p[0] if "open" in LOOPS[k]) >= 2 and not any(LOOPS[k]["text"] == "B=B+1" for k in p[0])]
+    for p in nests:
+        plan.append(("loop-nest", "\n".join(gen.render_program(LOOPS, p) + ["90 END"]), dict(base, initialize_vars=bool(len(plan) % 2))))
+    # whole bundles (program + runtime procedures), every string size class: the bundled text is output too
+    for k, body in enumerate(["10 PLAY \"C\":HDRAW \"U4\":Z$=STRING$(3,\"A\")", "10 INPUT A,B$:PRINT A;B$:Z=INSTR(1,B$,\"A\")+VAL(B$)",
+                              "10 HSCREEN 2:HCIRCLE(1,2),3:HLINE(1,2)-(3,4),PSET,BF:HPAINT(1,2),3,4:HPRINT(1,2),\"X\"", "10 HBUFF 1,100:HGET(1,2)-(3,4),1:HPUT(1,2)-(3,4),1,PSET",
+                              "10 ON ERR GOTO 20:ON BRK GOTO 20:Z=JOYSTK(0)+BUTTON(1):SOUND 1,2:LOCATE 1,2:ATTR 1,2,B,U\n20 PALETTE 1,2:PALETTE RGB:WIDTH 40:CLS 3:POKE 65497,0"]):
+        for sz in (32, 80, 16):
+            plan.append(("bundle", body, {"output_dependencies": True, "procname": "prog", "default_str_storage": sz, "add_suffix": k % 2 == 0}))
     res = common.run_real("w_convert", [{"src": s, "opts": o} for _, s, o in plan])
     cases = []
     meta = []
@@ -67,12 +79,12 @@ def main():
             rep.count("refused")
             rep.count("refused_" + r.get("exc", "?"))
             continue
-        cases.append({"id": len(cases) + 1, "lines": b09lex.lex_text(r["out"]), "srcvars": srcvars(src)})
+        cases.append({"id": len(cases) + 1, "kind": "output", "lines": b09lex.lex_text(r["out"]), "srcvars": srcvars(src)})
         meta.append((tag, src, o, r["out"]))
     # the library text itself: the recogniser must accept working BASIC09 written by hand
     with open(os.path.join(common.REPO, "coco", "resources", "ecb.b09")) as f:
         libtext = f.read()
-    cases.append({"id": len(cases) + 1, "lines": b09lex.lex_text(libtext), "srcvars": []})
+    cases.append({"id": len(cases) + 1, "kind": "library", "lines": b09lex.lex_text(libtext), "srcvars": []})
     meta.append(("library", "(coco/resources/ecb.b09)", {}, libtext))
     vds = common.judge("Trace_C07", cases, rep, wd, shard=1500)
     ok = []
@@ -99,7 +111,7 @@ def main():
             continue
         i, j = rng.choice(cand)
         del lines[i][j]
-        picked.append({"id": len(picked) + 1, "lines": lines, "srcvars": []})
+        picked.append({"id": len(picked) + 1, "kind": "output", "lines": lines, "srcvars": []})
         if len(picked) >= 40:
             break
     cv = common.judge("Trace_C07", picked, rep, wd)
